@@ -252,7 +252,7 @@ def main():
      "checks": [],
      "notes": ("All checks: ./check <id> --tier quick|thorough ; exit 0 held / 1 VIOLATION / 2 machinery failure. "
                "known_findings.json lists genuine defects (open => KNOWN-FINDING lines, fixed => suppress nothing). "
-               "Extension modules X01 (Printing), X02 (MatAlgebra), X03 (DenseElem) extend the specification beyond the 20 "
+               "Extension modules X01 (Printing), X02 (MatAlgebra), X03 (DenseElem), X04 (Arguments) extend the specification beyond the 20 "
                "listed properties (./check X0n --tier quick|thorough; evidence in evidence_ext/, divergences printed as "
                "EXT-VIOLATION); they are not claimed as property checks.  Every driver rotates the memory layout and the "
                "element type of the arrays handed to pyttb, and further property-specific presentations (magnitudes, scalar "
@@ -283,7 +283,8 @@ def main():
         m["engines"].append({"name": e, "path": f"/verif/spec/{e}.tla", "serves_properties": ps,
                              "kind_free_text": "TLA+ specification checked with TLC (model checking, behaviour generation, trace validation)"})
     for name, what in (("Printing", "X01: printed form of every class"), ("MatAlgebra", "X02: tenmat / sptenmat / sumtensor / ttensor algebra"),
-                       ("DenseElem", "X03: dense element-wise operations and tenfun")):
+                       ("DenseElem", "X03: dense element-wise operations and tenfun"),
+                       ("Arguments", "X04: argument validators, index-key classification, shape / vector normalisers")):
         m["engines"].append({"name": name, "path": f"/verif/spec/{name}.tla", "serves_properties": [],
                              "kind_free_text": "TLA+ specification beyond the listed properties (extension module " + what + ")"})
     json.dump(m, open(V / "MANIFEST.json", "w"), indent=1)
